@@ -322,6 +322,12 @@ pub fn final_quiescence(w: &Arc<World>, handles: &[Option<ObjH>]) {
             w.note("C16", "pipe-not-shut-down", None, None, format!("the output stream of pipe s{} was dropped and the input stayed silent, but the input stream was dropped {} times and the processing closure {} times", si, drops, fn_drops));
         }
     }
+    // a waker called from inside poll_next must return (a pipe that takes a lock in its waker which it also holds while it polls
+    // its stream deadlocks right there)
+    let stuck_wakes: Vec<(usize, bool, Option<usize>)> = w.with(|i| i.streams.iter().enumerate().filter(|(_, s)| s.in_self_wake).map(|(si, s)| (si, s.is_pipe, s.pipe_obj)).collect());
+    for (si, is_pipe, obj) in stuck_wakes {
+        w.note(if is_pipe { "C12" } else { "C11" }, "wake-from-poll-never-returned", obj, None, format!("input stream s{} woke the pipe from inside poll_next and that call has not returned although nothing can run any more", si));
+    }
     for (o, h) in handles.iter().enumerate() {
         if let Some(h) = h {
             w.hist(|| format!("at final quiescence o{}: {}", o, h.debug()));
